@@ -908,13 +908,36 @@ def compare(form: str, defn: dict, inst: dict, exp: dict, obs: dict, case: dict)
             continue
         if e[0] != o[0]:
             i = first_diff_name(e[0], o[0])
-            field = field_of_name(defn, i)
-            fnames = [n for f, ns in fields_of(defn) if f is field for n in ns]
-            fail("K3", label(defn, field, fnames, 1),
+            fail("K3", deep_label(defn, e[0], o[0]),
                  f"unpack_serializable of {im.hex()[:80]}: field {names[i]!r} is {o[0][1][i][1]!r}, the definition "
                  f"says {e[0][1][i][1]!r}")
         if e[1] != o[1]:
             fail("K3", "offset", f"unpack_serializable of {im.hex()[:80]} ends at {o[1]}, image ends at {e[1]}")
+
+
+def deep_label(defn: dict, e: list, o: list) -> str:
+    """
+    Kind of the innermost field at which two canonical payload values differ (a wrong inner payload is the inner
+    definition's finding, not one of each enclosing level).
+    """
+    names = defn["names"]
+    for i, (x, y) in enumerate(zip(e[1], o[1])):
+        if x == y:
+            continue
+        field = field_of_name(defn, i)
+        ex, ob = x[1], y[1]
+        inner = inner_of(field)
+        if inner is not None and isinstance(ex, list) and isinstance(ob, list) and ex[:1] == ob[:1]:
+            if ex[0] == "P" and len(ex[1]) == len(ob[1]):
+                return deep_label(inner, ex, ob)
+            if ex[0] == "list" and len(ex[1]) == len(ob[1]):
+                for a, b in zip(ex[1], ob[1]):
+                    if a != b and isinstance(a, list) and isinstance(b, list) and a[:1] == b[:1] == ["P"] \
+                            and len(a[1]) == len(b[1]):
+                        return deep_label(inner, a, b)
+        fnames = [n for f, ns in fields_of(defn) if f is field for n in ns]
+        return label(defn, field, fnames, 1)
+    return "shape"
 
 
 def describe(defn: dict) -> str:
